@@ -16,6 +16,10 @@ REGISTRY = {
     "C02": ("vf.props.create_family", "C02"),
     "C03": ("vf.props.create_family", "C03"),
     "C15": ("vf.props.create_family", "C15"),
+    "C10": ("vf.props.create_family", "C10"),
+    "C04": ("vf.props.recheck_family", "C04"),
+    "C05": ("vf.props.recheck_family", "C05"),
+    "C16": ("vf.props.recheck_family", "C16"),
 }
 
 
